@@ -514,6 +514,22 @@ Proof.
   apply relR_hole in H; [|exact R]. destruct H as [e [-> ->]]. reflexivity.
 Qed.
 
+(** ... also under the annotation: the failure, not a blame, comes out. *)
+Theorem reached_fails_annotated : forall n k T o pos,
+  wf_case k pos T = true -> supported o ->
+  reaches n k o pos = true -> run n (plug k pos AFail) (Some T) o = Err EFail.
+Proof.
+  intros n k T o pos WF So R. unfold reaches in R. rewrite !run_unfold in *.
+  assert (RelR (Hole_err E_fail) eq
+            (force n (TObs o (annotate None (thunk_of_container (plug k pos AProbe)))))
+            (force n (TObs o (annotate (Some T) (thunk_of_container (plug k pos AFail)))))) as H.
+  { apply program_rel; try exact So; try apply Hole_err_bind;
+      try (apply Hole_err_serde; unfold E_fail; discriminate).
+    cbn [annotate]. apply guarded; try exact WF; try apply Hole_err_bind.
+    intros b. exists EFail. split; reflexivity. }
+  apply relR_hole in H; [|exact R]. destruct H as [e [-> ->]]. reflexivity.
+Qed.
+
 Lemma E_blame_serde : E_blame ENotExportable -> E_blame ESerialize.
 Proof. unfold E_blame. cbn. discriminate. Qed.
 
